@@ -191,6 +191,20 @@ def keywords_table(st):
     return st.alloc(HObj("dict", kind="dict", items=items, label="keywords"))
 
 
+def is_lines(name):
+    """the sequence of text lines, however the loop wraps it (enumerate(lines), iter ...)"""
+    return name == "lines" or name.endswith("(lines)")
+
+
+def line_of(elem):
+    """the line of a loop element ((index, line) under enumerate)"""
+    if isinstance(elem, tuple):
+        for x in elem:
+            if isinstance(x, LineVal):
+                return x
+    return elem
+
+
 ENTRY_POINTS = {
     "parse_feature": ("behave.parser:parse_feature", "feature"),
     "parse_rule": ("behave.parser:parse_rule", "rule"),
@@ -352,7 +366,7 @@ def make_interp(ix, st, events):
         """Forget values no later decision of the parser depends on (sound: every forgotten
         value is replaced by an unknown or by a canonical representative of the same
         emptiness class); makes the set of loop-head states small."""
-        if seq.name != "lines":
+        if not is_lines(seq.name):
             return
         s.ghost.pop("cur", None)
         for oid, o in list(s.heap.items()):
